@@ -68,6 +68,7 @@ type c17W struct {
 	lc2    api.FeatureLocalInterface // [2]/3 LoadControl server, writable, bound by peer 1 (and, in turn, by a peer without writer)
 	conns  []*c17Conn
 	mutes  [2]c17Mute
+	sparse [2]c17Mute // connections WITH writer whose discovery data omits optional elements (sparseIn)
 	ent1   [3]api.EntityRemoteInterface // entity [1] of each connection as found when the world was built
 	state  int
 	soak   bool
@@ -91,6 +92,7 @@ type c17W struct {
 	mu     sync.Mutex
 	extras map[string]bool
 	appH   []api.EventHandlerInterface
+	coreH  []api.EventHandlerInterface // core-level observers of the harness (c17CoreDelay), removed by close()
 }
 
 func c17Feats() []rig.FS {
@@ -467,6 +469,9 @@ func (cw *c17W) connect(i int) *c17Conn {
 func c17Build(c *rig.Ctx, tag string, state int, nconn int, soak bool) *c17W {
 	cw := &c17W{c: c, w: rig.NewWorld(tag), state: state, soak: soak, pend: make(chan *api.Message, 256), extras: map[string]bool{}}
 	cw.local = cw.w.Local
+	for i := range cw.sparse {
+		cw.sparse[i].ski, cw.sparse[i].addr, cw.sparse[i].ctr = fmt.Sprintf("%s-sparse%d", tag, i), fmt.Sprintf("sparse%d", i), uint64(19000000+1000000*i)
+	}
 	for i := range cw.mutes {
 		cw.mutes[i].ski, cw.mutes[i].addr, cw.mutes[i].ctr = fmt.Sprintf("%s-mute%d", tag, i), fmt.Sprintf("mute%d", i), uint64(9000000+1000000*i)
 	}
@@ -594,6 +599,111 @@ func (cw *c17W) muteIn(i int, reconnect, announce bool, msgs ...func(m *c17Mute,
 	return rd
 }
 
+// sparseIn: a peer WITH a writer whose detailed discovery reply is legal but unusual - optional elements are omitted
+// (the stack tolerates each of them explicitly: DeviceRemote.UpdateDevice and AddEntityAndFeatures skip a missing
+// device address, CheckEntityInformation accepts entity addresses without device part in initial data):
+//
+//	variant 0: deviceInformation.description without deviceAddress
+//	variant 1: deviceAddress present, its device element omitted
+//	variant 2: deviceAddress present, but the entity and feature addresses carry no device part
+//
+// The connection is set up lazily (reconnect: dropped first), the reply is delivered, then the peer reads the local
+// use case data and the local device is asked for the peer's data once more. Everything must return, and - what the
+// case's other workers and the teardown judge - every LATER publication on the event bus must still complete.
+func (cw *c17W) sparseIn(i, variant int, reconnect bool) {
+	m := &cw.sparse[i%len(cw.sparse)]
+	m.mu.Lock()
+	defer m.mu.Unlock()
+	rd := cw.local.RemoteDeviceForSki(m.ski)
+	if !rig.IsNil(rd) && reconnect {
+		cw.local.RemoveRemoteDeviceConnection(m.ski)
+		rd = nil
+	}
+	if rig.IsNil(rd) {
+		cw.mu.Lock()
+		cw.extras[m.ski] = true // removed by close()
+		cw.mu.Unlock()
+		cw.local.SetupRemoteDevice(m.ski, &rig.Tap{})
+		if rd = cw.local.RemoteDeviceForSki(m.ski); rig.IsNil(rd) {
+			return
+		}
+	}
+	d := (&rig.Peer{Ski: m.ski, Addr: m.addr}).Discovery(c17Feats(), nil, nil)
+	switch variant % 3 {
+	case 0:
+		d.DeviceInformation.Description.DeviceAddress = nil
+	case 1:
+		d.DeviceInformation.Description.DeviceAddress = &model.DeviceAddressType{}
+	default:
+		for k := range d.EntityInformation {
+			if a := d.EntityInformation[k].Description.EntityAddress; a != nil {
+				a.Device = nil
+			}
+		}
+		for k := range d.FeatureInformation {
+			if a := d.FeatureInformation[k].Description.FeatureAddress; a != nil {
+				a.Device = nil
+			}
+		}
+	}
+	send := func(cl model.CmdClassifierType, src, dst *model.FeatureAddressType, ref *model.MsgCounterType, cmd model.CmdType) {
+		mc := model.MsgCounterType(atomic.AddUint64(&m.ctr, 1))
+		b, err := json.Marshal(rig.Datagram(cl, src, dst, mc, false, ref, cmd))
+		if err != nil {
+			panic("harness: cannot marshal datagram: " + err.Error())
+		}
+		if _, herr := rd.HandleSpineMesssage(b); herr != nil && strings.HasPrefix(herr.Error(), "invalid spine message:") {
+			what := herr.Error()
+			if len(what) > 120 {
+				what = what[:120]
+			}
+			cw.c.Violate("inbound-recovered-panic/"+string(cl)+"/optional-elements-omitted", "handling of a well-formed %s datagram (%s, discovery variant %d: optional address elements omitted) panicked inside the stack and was recovered: %s\n datagram: %s", cl, cmd.DataName(), variant%3, what, b)
+		}
+	}
+	nm := rig.FA(m.addr, []uint{0}, 0)
+	send(model.CmdClassifierTypeReply, nm, rig.LNM, util.Ptr(model.MsgCounterType(1)), model.CmdType{NodeManagementDetailedDiscoveryData: d})
+	send(model.CmdClassifierTypeRead, nm, rig.LNM, nil, model.CmdType{NodeManagementUseCaseData: &model.NodeManagementUseCaseDataType{}})
+	_, _ = cw.local.RequestRemoteDetailedDiscoveryData(rd)
+	_ = rig.JS(rd.UseCases())
+	for _, e := range rd.Entities() {
+		_ = e.Address().String()
+		for _, f := range e.Features() {
+			_ = f.Address().String()
+		}
+	}
+	cw.c.Count(fmt.Sprintf("sparse_discovery_variant%d", variant%3), 1)
+}
+
+// c17CoreDelay is a core-level observer (subscribed through the verif accessor like rig.World.Core): core-level handlers
+// run synchronously inside Events.Publish, under the bus' handle lock. It only widens the window between "a publication
+// of a device change holds the handle lock" and the stack's own core handler (DeviceLocal.HandleEvent, which looks the
+// remote device up under DeviceLocal's mutex) by a seeded delay, as the jitter hooks do at the verifPoints. With
+// resubscribe it additionally does what the bus' two-lock scheme exists for: it subscribes and unsubscribes a handler
+// from inside HandleEvent (public Events.Subscribe/Unsubscribe), while other goroutines publish.
+type c17CoreDelay struct {
+	cw          *c17W
+	resubscribe bool
+	n           atomic.Int64
+	windows     atomic.Int64
+}
+
+func (h *c17CoreDelay) HandleEvent(p api.EventPayload) {
+	if !strings.HasPrefix(p.Ski, h.cw.w.Tag) {
+		return
+	}
+	n := h.n.Add(1)
+	if p.EventType == api.EventTypeDeviceChange {
+		h.windows.Add(1)
+		runtime.Gosched()
+		time.Sleep(time.Duration(100+(n*37)%400) * time.Microsecond)
+	}
+	if h.resubscribe && n%3 == 0 {
+		x := &c17Handler{cw: h.cw}
+		_ = spine.Events.Subscribe(x)
+		_ = spine.Events.Unsubscribe(x)
+	}
+}
+
 type c17MuteSend = func(cl model.CmdClassifierType, src, dst *model.FeatureAddressType, ack bool, ref *model.MsgCounterType, cmd model.CmdType)
 
 // muteSubs are the subscriptions a peer without writer asks for: LoadControl [1]/1 (notified by every local data
@@ -662,6 +772,12 @@ func (cw *c17W) close() {
 	}
 	for _, h := range hs {
 		_ = spine.Events.Unsubscribe(h)
+	}
+	cw.mu.Lock()
+	chs := cw.coreH
+	cw.mu.Unlock()
+	for _, h := range chs {
+		_ = spine.VerifUnsubscribeCore(h)
 	}
 	for _, e := range []*spine.EntityLocal{cw.e1, cw.e2} {
 		if hm := e.HeartbeatManager(); hm != nil {
